@@ -2,10 +2,11 @@
 
 Layer A  theories/C06/Props.v (integer-literal gate of the lexer + the gate of compile_sources) and the shared
          kernels the other clauses rest on: theories/TypeKernel/Props.v (a type mismatch on Any-free types is
-         rejected by `assignable`), theories/C07/Props.v (an accepted match is exhaustive).
+         rejected by `assignable`), theories/C07/Props.v (an accepted match is exhaustive), theories/C15/Props.v
+         (C15_lookup_unbound: a name with no enclosing binder does not resolve).
 Layer B  literal gate: generated (previous token, digit string) pairs through the real lexer (`vh lex-run lex`)
-         and the real parser (`vh fmt-run parse-expr`), compared inside coqc with BOTH models of
-         process_raw_token (pinned tree / repaired tree); the check records which one the code agrees with.
+         and the real parser (`vh fmt-run parse-expr`), compared inside coqc with the model C06.process_raw /
+         lit_value of process_raw_token; any deviation is a correspondence disagreement.
          compile gate: on every job `errors != [] <-> compile_sources = Err`.
          type kernel: lib/typekernel.kernel_correspondence.
 Layer C  single-fault injector gen/faults.py over generated two-module programs and over /repo/tests/*.sam and /repo/std/*.sam;
@@ -26,7 +27,13 @@ PID = 'C06'
 LIT_KLASS = 'C06-int-literal-gate'
 HEADER = ('From Coq Require Import List ZArith Bool NArith. Import ListNotations.\n'
           'From SV Require Import C06.Model C06.Corr.\nOpen Scope Z_scope.\n')
-LIT_WITNESS = 'class Main {\n  function main(): unit = Process.println(Str.fromInt(1 + 2147483648))\n}\n'
+# the diagnostics each fault family aims at (informational: the property only asks for >= 1 error in the module)
+EXPECTED_DIAGNOSTIC = {
+    'operand-type': {'Stacked'}, 'arg-type': {'Stacked'}, 'arity': {'Stacked'}, 'typearg-arity': {'Stacked'},
+    'unbound-var': {'CannotResolveName'}, 'unresolved': {'CannotResolveClass', 'CannotResolveMember', 'CannotResolveModule', 'MissingExport', 'CannotResolveName'},
+    'private': {'CannotResolveMember', 'MissingExport', 'CannotResolveClass'}, 'interface': {'MissingClassMemberDefinitions', 'Stacked'},
+    'bound': {'IncompatibleSubType', 'Stacked'}, 'int-literal': {'InvalidSyntax'}, 'match-arm': {'NonExhaustiveMatch'},
+}
 
 
 def par_jobs(jobs, nchunk=16):
@@ -110,7 +117,7 @@ def lit_gate_correspondence(ck, tier, seed):
             par[r.get('id')] = r
     if len(lex) != len(cases):
         ck.obligation('literal-gate correspondence ran', False, 'vh lex-run lex: %d answers for %d inputs: %s' % (len(lex), len(cases), out[-300:]))
-        return None
+        return False
     rows, obs = [], []
     for i, (pre, post, prev, expr, ds) in enumerate(cases):
         r = lex[i]
@@ -140,32 +147,28 @@ def lit_gate_correspondence(ck, tier, seed):
     for s in range(nshard):
         part = rows[s::nshard]
         jobs.append(('c06_lit_%s_%d' % (tier, s), HEADER + 'Definition cs : list lcase := [\n%s].\nEval vm_compute in (lbad cs).\n' % ';\n'.join(part)))
-    bad_pinned, bad_patched, known = [], [], []
-    failed = []
+    bad, failed = [], []
     for s, (rc, o) in enumerate(coq_eval_many(jobs)):
         resl = coq_result(o) if rc == 0 else None
-        m = re.fullmatch(r'\(\s*\[(.*?)\]\s*,\s*\[(.*?)\]\s*,\s*\[(.*?)\]\s*\)', resl or '')
+        m = re.fullmatch(r'\[(.*?)\]', resl or '')
         if not m:
             failed.append(o[-400:])
             continue
-        for grp, dst in zip(m.groups(), (bad_pinned, bad_patched, known)):
-            dst += [s + nshard * int(x) for x in re.findall(r'(\d+)%N', grp)]
+        bad += [s + nshard * int(x) for x in re.findall(r'(\d+)%N', m.group(1))]
     if failed:
         ck.obligation('model-evaluation(C06.Corr.lbad)', False, failed[0])
-        return None
-    which = 'pinned' if not bad_pinned else 'patched' if not bad_patched else None
+        return False
     ck.obligation('literal-gate correspondence ran', True,
-                  '%d observations of the real lexer/parser; disagreements with the model of the pinned lexer: %d, with the model of the '
-                  'repaired lexer: %d; observations in the class Known_C06_lit: %d' % (len(rows), len(bad_pinned), len(bad_patched), len(known)))
-    if which is None:
-        use, name = (bad_pinned, 'C06.process_raw (pinned lexer)') if len(bad_pinned) <= len(bad_patched) else (bad_patched, 'C06.process_raw_patched (repaired lexer)')
-        for i in sorted(use)[:5]:
-            ck.disagree(name + ' + lit_value vs TokenProducer::process_raw_token + source_parser.rs Literal::Int', obs[i],
-                        'see theories/C06/Model.v (Eval vm_compute in (lmodel %s [%s]))' % (obs[i]['pending'], ';'.join(obs[i]['digits'])),
-                        {k: obs[i][k] for k in ('error', 'merged', 'value')}, how="echo '{\"text\": ...}' | vh lex-run lex ; vh fmt-run parse-expr")
-    ck.extra_cov['lexer_agrees_with_model'] = which
+                  '%d observations of the real lexer/parser (error, merge, stored value); disagreements with C06.process_raw / lit_value: %d'
+                  % (len(rows), len(bad)))
+    for i in sorted(bad)[:5]:
+        ck.disagree('C06.process_raw + lit_value vs TokenProducer::process_raw_token + source_parser.rs Literal::Int', obs[i],
+                    'see theories/C06/Model.v (Eval vm_compute in (lmodel %s [%s]))' % (obs[i]['pending'], ';'.join(obs[i]['digits'])),
+                    {k: obs[i][k] for k in ('error', 'merged', 'value')}, how="echo '{\"text\": ...}' | vh lex-run lex ; vh fmt-run parse-expr")
+    ck.extra_cov['literal_gate_observations'] = len(rows)
+    ck.extra_cov['literal_gate_disagreements'] = len(bad)
     ck.sample({'literal_gate_observations': obs[:2] + [o for o in obs if o['digits'] == '2147483648' and o['pending'] == 'POther'][:1]})
-    return which
+    return not bad
 
 
 # ----------------------------------------------------------------------------- layer C: the oracle
@@ -190,13 +193,15 @@ def verdict(m, r):
 
 
 def judge(ck, muts, results, replay_inputs, scope):
-    lit_fail = []
     for m, r, inp in zip(muts, results, replay_inputs):
         fam = faults.family(m['kind'])
         ck.case([scope, m['module'], m['kind'], m['edit']], True)
         ck.count('%s:%s' % (scope, fam))
-        for k in sorted({e['kind'] for e in r['errors'] if e['module'] == m['module']}):
+        kinds = {e['kind'] for e in r['errors'] if e['module'] == m['module']}
+        for k in sorted(kinds):
             ck.count('diagnostic:%s:%s' % (fam, k))
+        if kinds and fam in EXPECTED_DIAGNOSTIC and not (kinds & EXPECTED_DIAGNOSTIC[fam]):
+            ck.count('rejected-but-not-by-the-diagnostic-the-fault-aims-at:' + fam)     # informational
         why = verdict(m, r)
         # the compile gate (model: errors <> [] -> CErr; errors = [] /\ entries exist -> COk)
         if bool(r['errors']) != (r['compile'] == 'rejected') and not str(r['compile']).startswith('panic') and not r.get('front_panic'):
@@ -204,13 +209,9 @@ def judge(ck, muts, results, replay_inputs, scope):
                         'Err exactly when the error set is non-empty', {'errors': len(r['errors']), 'compile': r['compile']})
         if why is None:
             continue
-        if m['kind'] == 'int-literal:2147483648' and not r['errors']:
-            lit_fail.append((m, r, inp))
-            continue
         ck.property_failure('single-fault mutant (%s: %s at line %d col %d of %s): %s' % (m['kind'], m['what'], m['site'][0] + 1, m['site'][1] + 1, m['module'], why),
                             inp, expected='>= 1 error located in %s and compile_sources = Err' % m['module'],
                             observed={'errors': r['errors'][:5], 'compile': r['compile']}, how='./check C06 --replay <this file>')
-    return lit_fail
 
 
 def pick_mutants(rng, muts, per_family):
@@ -232,33 +233,34 @@ def pick_mutants(rng, muts, per_family):
 
 def run(tier, seed, replay=None):
     ck = Check(PID, tier, seed, level='proof (partial)')
-    ck.checker_cmd = ('make -C /verif/coq theories/C06/Props.vo theories/TypeKernel/Props.vo theories/C07/Props.vo (coqc 8.16.1) '
+    ck.checker_cmd = ('make -C /verif/coq theories/C06/Props.vo theories/TypeKernel/Props.vo theories/C07/Props.vo theories/C15/Props.vo (coqc 8.16.1) '
                       '+ Print Assumptions per theorem')
     ck.trusted = [
         'Coq 8.16.1 kernel; no axioms',
         'theorems: (i) integer-literal gate — hand model theories/C06/Model.v of TokenProducer::process_raw_token (lexer.rs) and of '
         '`text.parse::<i32>().unwrap_or(0)` (source_parser.rs), incl. the step-by-step checked arithmetic of the Rust std integer parsers; '
-        'both the pinned and the repaired version of the range test are modelled, the check decides on every run which one the code agrees '
-        'with by running the real lexer and parser on generated (pending token, digits) pairs and comparing error / merge / value inside coqc; '
+        'tie: the real lexer and parser are run on generated (pending token, digits) pairs and error / merge / stored value are compared '
+        'with the model inside coqc on every run (the pre-repair gate is kept in the theory as a historical, refuted definition only); '
         '(ii) compile_sources gate (errors non-empty -> no code) over an abstract front end and back end, tied on every job of the monitor; '
-        '(iii) TypeKernel (mismatch on Any-free types rejected by assignability) and (iv) C07 (accepted match is exhaustive), each with its own tie',
+        '(iii) TypeKernel (mismatch on Any-free types rejected by assignability), (iv) C07 (accepted match is exhaustive), (v) C15 scope-stack '
+        'model (C15_lookup_unbound), each with its own tie in its own check',
         'NOT proved: that the checker calls the kernels at every use site, arity / visibility / interface-conformance / bound checks, name '
         'resolution — these clauses are monitored only (layer C)',
         'layer C (testing): gen/faults.py single-fault injector — every mutant is ill-typed by construction (argument per fault kind in the '
         'source); Python tokenizer + declaration-header reader are trusted for that guarantee',
     ]
     check_props(ck, 'theories/C06/Props.v')
+    if replay:          # re-run exactly that input against the current /repo
+        rp = json.load(open(replay))['input']
+        m = {'module': rp['mutated'], 'kind': rp.get('kind', 'replay'), 'what': rp.get('what', ''), 'site': rp.get('site', [0, 0]), 'edit': rp.get('edit')}
+        r = run_jobs([{'id': 0, 'sources': rp['sources'], 'entries': [rp['entry']], 'compile': True, 'with_std': rp.get('with_std', True)}])[0]
+        judge(ck, [m], [r], [rp], 'replay')
+        return ck.finish()
     typekernel.props(ck)
     check_props(ck, 'theories/C07/Props.v')
     typekernel.kernel_correspondence(ck, tier, seed, PID)
-    which = lit_gate_correspondence(ck, tier, seed)
-    kid_known = next((k for k in ck.known if k['id'] == LIT_KLASS), None)
-    if which == 'pinned':
-        ck.notes.append('the lexer in /repo agrees with the model of the PINNED process_raw_token: C06_lit_gate_refuted applies (2147483648 after a '
-                        'token other than `-` passes the gate and is read as 0); the full theorem holds only outside Known_C06_lit')
-    elif which == 'patched':
-        ck.notes.append('the lexer in /repo agrees with the model of the REPAIRED process_raw_token: C06_lit_gate_patched / C06_lit_value_patched '
-                        '(the full statement) apply')
+    check_props(ck, 'theories/C15/Props.v')        # clause (iii): C15_lookup_unbound (a name with no enclosing binder does not resolve)
+    lit_gate_correspondence(ck, tier, seed)
 
     ck.rule = ('generated programs: gen/progs.py programs (general and layout-focused) extended to two modules (Helper with private members/class; '
                'interface + implementing class + non-implementing class + bounded type parameters), every applicable site of 11 fault families '
@@ -266,26 +268,30 @@ def run(tier, seed, replay=None):
                'std/*.sam module, 4 families guaranteed without type information, each mutant checked within the whole tests+std program set; '
                'distinct = distinct (module, kind, edit); literal-gate cases: 23 token contexts x boundary-biased digit strings')
 
-    if replay:
-        rp = json.load(open(replay))['input']
-        m = {'module': rp['mutated'], 'kind': rp.get('kind', 'replay'), 'what': rp.get('what', ''), 'site': rp.get('site', [0, 0]), 'edit': rp.get('edit')}
-        r = run_jobs([{'id': 0, 'sources': rp['sources'], 'entries': [rp['entry']], 'compile': True, 'with_std': rp.get('with_std', True)}])[0]
-        lit = judge(ck, [m], [r], [rp], 'replay')
-        for mm, rr, inp in lit:
-            ck.property_failure('literal 2147483648 accepted and compiled', inp, observed={'compile': rr['compile']}, klass=LIT_KLASS)
-        return ck.finish()
-
-    lit_fail = []
-    # ---- corpus: witnesses of earlier findings, each must be rejected
+    # ---- corpus: witnesses of earlier findings run first; each must be rejected
     cdir = os.path.join(ROOT, 'corpus', PID)
     corpus = sorted(f for f in (os.listdir(cdir) if os.path.isdir(cdir) else []) if f.endswith('.sam'))
     if corpus:
-        cm = [{'module': 'Main', 'kind': 'int-literal:2147483648' if 'literal-2147483648' in f else 'corpus:' + f, 'what': 'corpus/C06/' + f,
-               'site': [0, 0], 'edit': f} for f in corpus]
+        cm = [{'module': 'Main', 'kind': 'corpus:' + f, 'what': 'corpus/C06/' + f, 'site': [0, 0], 'edit': f} for f in corpus]
         cin = [{'sources': {'Main': open(os.path.join(cdir, f)).read()}, 'entry': 'Main', 'mutated': 'Main', 'kind': m['kind'], 'what': m['what']}
                for f, m in zip(corpus, cm)]
         cres = run_jobs([{'id': i, 'sources': x['sources'], 'entries': ['Main'], 'compile': True} for i, x in enumerate(cin)])
-        lit_fail += judge(ck, cm, cres, cin, 'corpus')
+        lit = [(m, r, x) for m, r, x in zip(cm, cres, cin) if 'literal-2147483648' in m['edit']]
+        rest = [(m, r, x) for m, r, x in zip(cm, cres, cin) if 'literal-2147483648' not in m['edit']]
+        if rest:
+            judge(ck, [t[0] for t in rest], [t[1] for t in rest], [t[2] for t in rest], 'corpus')
+        if lit:          # the witnesses of the fixed finding C06-int-literal-gate
+            back = [(m, verdict(m, r)) for m, r, _ in lit if verdict(m, r) is not None]
+            for m, r, _ in lit:
+                ck.case(['corpus', m['edit']], True)
+                ck.count('corpus:int-literal')
+            detail = ('; '.join('%s: %s' % (m['what'], why) for m, why in back) if back else
+                      '%d witnesses rejected with an error in Main, compile_sources = Err' % len(lit))
+            try:
+                ck.known_witness(LIT_KLASS, bool(back), detail)
+            except KeyError:
+                if back:
+                    judge(ck, [t[0] for t in lit], [t[1] for t in lit], [t[2] for t in lit], 'corpus')
 
     # ---- generated programs
     rng = Rng(seed ^ 0xC06)
@@ -311,7 +317,7 @@ def run(tier, seed, replay=None):
         src[m['module']] = m['text']
         inputs.append({'sources': src, 'entry': 'Main', 'mutated': m['module'], 'kind': m['kind'], 'what': m['what'], 'site': m['site'], 'edit': m['edit']})
     results = par_jobs([{'id': i, 'sources': x['sources'], 'entries': ['Main'], 'compile': True} for i, x in enumerate(inputs)])
-    lit_fail += judge(ck, muts, results, inputs, 'generated')
+    judge(ck, muts, results, inputs, 'generated')
     ck.extra_cov['generated_programs'] = nprog
     ck.extra_cov['generated_fault_sites_enumerated'] = sites_total
     ck.extra_cov['generated_mutants_run'] = len(muts)
@@ -339,24 +345,9 @@ def run(tier, seed, replay=None):
                             'note': 'all modules other than `mutated` are /repo/tests and /repo/std unchanged'})
         sres = par_jobs([{'id': i, 'sources': x['sources'], 'entries': ['tests.AllTests'], 'compile': True, 'with_std': False}
                          for i, x in enumerate(sinputs)])
-        lit_fail += judge(ck, smuts, sres, sinputs, 'samples')
+        judge(ck, smuts, sres, sinputs, 'samples')
     ck.extra_cov['sample_mutants_run'] = len(smuts)
 
-    # ---- the literal class
-    if lit_fail:
-        m, r, inp = lit_fail[0]
-        ck.property_failure('integer literal 2147483648 (outside the 32-bit range, not preceded by `-`) is accepted and the program is compiled '
-                            '(the value read is 0): %d mutants, first: %s at line %d of %s' % (len(lit_fail), m['what'], m['site'][0] + 1, m['module']),
-                            inp if len(json.dumps(inp)) < 20000 else {'sources': {'Main': LIT_WITNESS}, 'entry': 'Main', 'mutated': 'Main', 'kind': m['kind']},
-                            expected='error "Not a 32-bit integer." and compile_sources = Err', observed={'errors': [], 'compile': r['compile']},
-                            how='./check C06 --replay <this file>', klass=LIT_KLASS)
-        ck.count('literal-2147483648-accepted', len(lit_fail))
-    if kid_known is not None:
-        if kid_known['status'] == 'fixed':
-            ck.known_witness(LIT_KLASS, bool(lit_fail) or which == 'pinned',
-                             'lexer agrees with the %s model; %d mutants with 2147483648 accepted' % (which, len(lit_fail)))
-        elif not lit_fail and which == 'patched':
-            ck.known_witness(LIT_KLASS, False, 'lexer agrees with the repaired model; no mutant with 2147483648 accepted')
     if muts:
         m = muts[len(muts) // 2]
         ck.sample({'mutant': {k: m[k] for k in ('kind', 'what', 'site', 'original')}, 'line': m['text'].split('\n')[m['site'][0]][:200]})
